@@ -424,13 +424,17 @@ class G:
         piece = r.choice([[('s', b'/'), ('s', r.choice([b'b', b'a', b'm']))],
                           [('s', b'/')],
                           [('s', b'/'), ('s', r.choice(vocab))]])
+        # the same piece spelled with a redundant escape: same route, different byte length of the expansion text
+        piece2 = piece
+        if r.random() < 0.35 and piece[-1][0] == 's' and piece[-1][1][0:1].isalpha():
+            piece2 = piece[:-1] + [('s', b'\\' + piece[-1][1])]
         k = r.random()
         if k < 0.5:
-            t = base + [('g', piece), ('g', piece)]
+            t = base + ([('g', piece), ('g', piece2)] if r.random() < 0.5 else [('g', piece2), ('g', piece)])
         elif k < 0.75:
-            t = base + [('g', piece), ('g', piece), ('g', piece)]
+            t = base + [('g', piece), ('g', piece2), ('g', piece)]
         else:
-            t = base + [('g', piece + [('g', piece)]), ('g', piece)]
+            t = base + [('g', piece + [('g', piece2)]), ('g', piece)]
         ext = base + piece[:-1] + [('s', piece[-1][1] + r.choice([b'cd', b'c', b'/x']))] if piece[-1][1] != b'/' else base + [('s', b'/'), ('s', b'x')]
         return t, ext
 
@@ -632,14 +636,14 @@ def scen_longpath(g, n):
         L.append('insert 0 %s 1' % hx(b'/' + word + b'/{*rest}'))
         L.append('insert 0 %s 2' % hx(lit))
         L.append('insert 0 %s 3' % hx(b'/d/{seg}/end'))
-        for total in r.sample([4094, 4095, 4096, 4097, 4098, 5000] + ([8200, 16500] if n >= 16 else []), 2 if n < 16 else 3):
+        for total in r.sample([4094, 4095, 4096, 4097, 4098, 5000], 2):
             k = max(1, (total - len(word) - 2) // 2)
             L.append('search 0 ' + hx(b'/' + word + b'/' + b'a/' * k))
             L.append('search 0 ' + hx(b'/' + word + b'/' + b'a' * (2 * k)))
         L.append('search 0 ' + hx(lit))
         L.append('search 0 ' + hx(lit + b'/and/more'))
         L.append('search 0 ' + hx(lit[:-1]))
-        L.append('search 0 ' + hx(b'/d/' + b'x' * r.choice([4090, 4100] + ([9000] if n >= 16 else [])) + b'/end'))
+        L.append('search 0 ' + hx(b'/d/' + b'x' * r.choice([4090, 4100]) + b'/end'))
         L.append('search 0 ' + hx(b'/d/' + b'x' * 4100 + b'/end/more'))
         out += L + ['end']
     return out
